@@ -18,10 +18,12 @@
      Mut_NoDot          startswith(file_root) without the dot          Mut_ReadUnfiltered  readers built from the unfiltered lists
      Mut_SharedSeen     one seen-set shared by all levels              Mut_BreakOnSeen     leave the level loop at the first seen entity
      Mut_KeyWithDecoy   seen key = (entity, is_decoy)                  Mut_TempAppend      temp files appended to, not truncated
+   Formats (Exts): a collection is put as text or Parquet files; a roll reads the format Suffix says, writes its files in it, and
+   refuses to run when files of the base level exist in both formats (Glob -> idle, nothing written).
      AsIs_BaseNames     the command-line level word is fed to the parent table untranslated (pinned tree, F-03f) *)
 EXTENDS RollupDef
 
-CONSTANTS Stems, Roots, Cols, BaseSet, MaxOps, NRows,
+CONSTANTS Stems, Roots, Cols, BaseSet, MaxOps, NRows, Exts,
           Mut_NoDot, Mut_ReadUnfiltered, Mut_SharedSeen, Mut_BreakOnSeen, Mut_KeyWithDecoy, Mut_TempAppend, AsIs_BaseNames
 
 \* ---- the fixed small world of the model: NRows PSMs, two versions of content per collection ----
@@ -34,19 +36,25 @@ Content(stem, v) == IF stem = SA THEN (IF v = 1 THEN {x \in Ids : x % 2 = 1} ELS
 \* what assign_confidence left for a collection at a level word (the C03 rule itself, tie free here: ranks are distinct)
 InWord == [precursor |-> "precursor", modified_peptide |-> "modifiedpeptide", peptide |-> "peptide", peptide_group |-> "peptidegroup"]
 CollFile(stem, v, l) == IF l = "psm" THEN Content(stem, v) ELSE UniqueLevel(RowsM, Content(stem, v), LvIdx(l))
-PutOp(f, stem, v) ==
+PutOp(f, stem, v, ext) ==
    LET g == Del(f, {n \in DOMAIN f : n.stem = stem /\ n.td \in {"t", "d"}})
-       files == {<<Nm(stem, td, IF l = "psm" THEN l ELSE InWord[l]), {x \in CollFile(stem, v, l) : RowsM[x].tgt = (td = "t")}>> :
+       files == {<<Nm(stem, td, IF l = "psm" THEN l ELSE InWord[l], ext), {x \in CollFile(stem, v, l) : RowsM[x].tgt = (td = "t")}>> :
                     td \in {"t", "d"}, l \in Cols \cup {"psm"}}
    IN [m \in DOMAIN g \cup {e[1] : e \in files} |-> IF m \in {e[1] : e \in files} THEN (CHOOSE e \in files : e[1] = m)[2] ELSE g[m]]
 DropOp(f, stem) == Del(f, {n \in DOMAIN f : n.stem = stem /\ n.td \in {"t", "d"}})
 
+ExtsCsv == {"csv"}
+ExtsBoth == {"csv", "pq"}
+Bases3 == {"psm", "precursor", "peptide"}
+StemsA == {SA}
+RootsR == {SR}
+BasesPep == {"peptide", "precursor"}
 StemsDef == {SA, SRB}
 RootsDef == {SR, SQ}
 ColsAll == {"precursor", "modified_peptide", "peptide", "peptide_group"}
 Cols3 == {"precursor", "modified_peptide", "peptide"}
 BasesAll == Bases
-Ops == [op : {"put"}, stem : Stems, v : {1, 2}] \cup [op : {"drop"}, stem : Stems] \cup [op : {"roll"}, root : Roots, base : BaseSet]
+Ops == [op : {"put"}, stem : Stems, v : {1, 2}, ext : Exts] \cup [op : {"drop"}, stem : Stems] \cup [op : {"roll"}, root : Roots, base : BaseSet]
 
 VARIABLES fs, pc, cur, fs0, inp, lv, pend, seen, temp, todo, hist
 vars == <<fs, pc, cur, fs0, inp, lv, pend, seen, temp, todo, hist>>
@@ -57,19 +65,22 @@ Init == /\ fs = <<>> /\ pc = "idle" /\ cur = [op |-> "none"] /\ fs0 = <<>> /\ in
 StartOp == /\ pc = "idle" /\ Len(hist) < MaxOps
            /\ \E o \in Ops :
                 /\ hist' = Append(hist, o) /\ cur' = o
-                /\ CASE o.op = "put" -> fs' = PutOp(fs, o.stem, o.v) /\ pc' = "idle" /\ UNCHANGED fs0
+                /\ CASE o.op = "put" -> fs' = PutOp(fs, o.stem, o.v, o.ext) /\ pc' = "idle" /\ UNCHANGED fs0
                      [] o.op = "drop" -> o.stem \in {n.stem : n \in DOMAIN fs} /\ fs' = DropOp(fs, o.stem) /\ pc' = "idle" /\ UNCHANGED fs0
                      [] o.op = "roll" -> fs' = fs /\ fs0' = fs /\ pc' = "glob"
            /\ UNCHANGED <<inp, lv, pend, seen, temp, todo>>
-Glob == /\ pc = "glob" /\ inp' = {n \in DOMAIN fs : n.lvl = cur.base /\ n.td \in {"t", "d"}}
-        /\ pc' = "filter" /\ UNCHANGED <<fs, cur, fs0, lv, pend, seen, temp, todo, hist>>
+Sfx == Suffix(fs0, cur.base)
+Glob == /\ pc = "glob"
+        /\ IF Refuses(fs, cur.base) THEN inp' = {} /\ pc' = "idle"           \* RuntimeError: both formats found (286-289)
+           ELSE inp' = {n \in DOMAIN fs : n.lvl = cur.base /\ n.td \in {"t", "d"} /\ n.ext = Suffix(fs, cur.base)} /\ pc' = "filter"
+        /\ UNCHANGED <<fs, cur, fs0, lv, pend, seen, temp, todo, hist>>
 IsOwn(stem) == IF Mut_NoDot THEN OwnNoDot(stem, cur.root) ELSE Own(stem, cur.root)
 Filter == /\ pc = "filter"
           /\ LET kept == {n \in inp : ~IsOwn(n.stem)}  rd == IF Mut_ReadUnfiltered THEN inp ELSE kept IN
              /\ inp' = rd
              /\ pc' = IF rd = {} THEN "idle" ELSE "levels"          \* no input file: outside the statement (the tool fails)
           /\ UNCHANGED <<fs, cur, fs0, lv, pend, seen, temp, todo, hist>>
-TempName(l) == Nm(cur.root, "temp", l)
+TempName(l) == Nm(cur.root, "temp", l, Sfx)
 Levels == /\ pc = "levels"
           /\ lv' = LevelsFor(cur.base, Cols, AsIs_BaseNames)
           /\ pend' = {e \in inp \X Ids : e[2] \in fs[e[1]]}
@@ -97,7 +108,7 @@ MergeDone == /\ pc = "merge" /\ pend = {}
              /\ todo' = lv /\ pc' = "write" /\ UNCHANGED <<cur, fs0, inp, lv, pend, seen, temp, hist>>
 WriteLevel == /\ pc = "write" /\ todo # {}
               /\ \E l \in todo :
-                   /\ fs' = Put(Put(fs, Nm(cur.root, "t", l), {x \in temp[l] : RowsM[x].tgt}), Nm(cur.root, "d", l), {x \in temp[l] : ~RowsM[x].tgt})
+                   /\ fs' = Put(Put(fs, Nm(cur.root, "t", l, Sfx), {x \in temp[l] : RowsM[x].tgt}), Nm(cur.root, "d", l, Sfx), {x \in temp[l] : ~RowsM[x].tgt})
                    /\ todo' = todo \ {l}
               /\ UNCHANGED <<pc, cur, fs0, inp, lv, pend, seen, temp, hist>>
 Finish == /\ pc = "write" /\ todo = {} /\ pc' = "idle" /\ UNCHANGED <<fs, cur, fs0, inp, lv, pend, seen, temp, todo, hist>>
@@ -113,11 +124,14 @@ RollObeysRule == [][(pc = "write" /\ pc' = "idle" /\ InDomain) => RollOK(RowsM, 
 LeftoversNeverMatter ==
    [][(pc = "write" /\ pc' = "idle" /\ InDomain) =>
         \A l \in LevelsPromised(cur.base, Cols) :
-           /\ Nm(cur.root, "t", l) \in DOMAIN fs'
-           /\ fs'[Nm(cur.root, "t", l)] \cup fs'[Nm(cur.root, "d", l)]
+           /\ Nm(cur.root, "t", l, Sfx) \in DOMAIN fs'
+           /\ fs'[Nm(cur.root, "t", l, Sfx)] \cup fs'[Nm(cur.root, "d", l, Sfx)]
                  = UniqueLevel(RowsM, InputRows(Clean(fs0, cur.root), cur.root, cur.base), LvIdx(l))]_vars
 \* the tool never modifies a file that is not its own
 InputsNeverTouched == [][pc # "idle" => InputsUntouched(fs, fs', cur.root)]_vars
+\* OBSERVATION (a config TLC must reject, RollupTool_obs1.cfg): the refusal can be caused by the tool's own earlier files alone --
+\* e.g. a roll over Parquet collections, the collections replaced by text ones, the next roll refuses although its inputs are fine
+RefusalNeverByLeftovers == [][(pc = "glob" /\ pc' = "idle") => Refuses(Clean(fs, cur.root), cur.base)]_vars
 TypeOK == pc \in {"idle", "glob", "filter", "levels", "merge", "write"}
 \* behaviour generation: every history of MaxOps operations that ends with a roll
 EmitCase == (pc = "idle" /\ Len(hist) = MaxOps /\ hist[MaxOps].op = "roll") => PrintT(<<"CASE", hist>>)
